@@ -88,6 +88,7 @@ def spaces(tier):
         for n in (2, 3):
             out.append(cs.db_space(n, cs.COMBOS[n % 2], 1, cli=True))
         out.append(cs.sequence_space(3))
+        out.append(cs.sequence_space(3, dataset=3))
     else:
         out.append(cs.db_space(6, cs.COMBOS[3], 0))
         for combo in cs.EXTREME:
@@ -102,6 +103,7 @@ def spaces(tier):
         for n in (2, 3, 4):
             out.append(cs.db_space(n, cs.COMBOS[n % 2], 2, cli=True))
         out.append(cs.sequence_space(4))
+        out.append(cs.sequence_space(4, dataset=3))
     return out
 
 
